@@ -13,7 +13,8 @@
                                                              (between operations: live instances /
                                                              allocations = those owned by exactly
                                                              one container variable),
-                                                             ledger_accepts_every_prefix
+                                                             ledger_accepts_every_prefix,
+                                                             live_instances_counted
    "copies made by construction or assignment (including assignment of a container to itself)
     are deep and independent of the source"                  copies_are_deep, no_leak_no_sharing,
                                                              step_refines_spec (x = x is the
@@ -27,7 +28,7 @@
    correspondence check (checks/C04.py).  Memory below the model's allocations (the allocator
    itself) is observed by ASan/the ledger of the harness only. *)
 From Coq Require Import ZArith List Bool.
-From Life Require Import LifeSpec LifeModel LifeBase LifeSpecProofs LifeStep LifeMain LifeAlias.
+From Life Require Import LifeSpec LifeModel LifeBase LifeSpecProofs LifeStep LifeMain LifeAlias LifeCount.
 Import ListNotations.
 
 (* Every history, followed by the destruction of all containers: no lifetime error occurs, the
@@ -49,6 +50,14 @@ Theorem no_leak_no_sharing : forall (nv : nat) (ops : list op) (st : state),
   (forall b, In b (blks (sw st)) <-> In b (all_bks (svars st))).
 Proof. exact no_leak_no_sharing_proof. Qed.
 Print Assumptions no_leak_no_sharing.
+
+(* Between operations the number of live instances is the spec's function of the contents: one
+   instance per field (key, value) of every stored item plus the instances of the embedded end
+   items - no temporary, no orphan, no duplicate. *)
+Theorem live_instances_counted : forall (nv : nat) (ops : list op) (st : state),
+  run (init nv) ops = Ok st -> length (heap (sw st)) = slive (abs st).
+Proof. exact live_count_proof. Qed.
+Print Assumptions live_instances_counted.
 
 (* Every operation in every reachable state succeeds and does to the contents what the spec
    says (in particular x = x, x.append(x), a.append(a[i]) are the spec's value semantics). *)
